@@ -999,6 +999,23 @@ pub fn customs_family(tier: Tier) -> Vec<Member> {
             out.push(Member { family: "customs", coords: format!("debug-sections-among-unknown #{} gap={}", k, gap), wasm: mb.build() });
         }
     }
+    // many custom sections (linker output carries dozens): 33, 40, 64 and 100 unknown ones with DWARF
+    // sections in front, in the middle and behind
+    for total in [33usize, 40, 64, 100] {
+        for debug_at in [0usize, total / 2, total] {
+            let mut mb = base.clone();
+            for i in 0..=total {
+                if i == debug_at {
+                    mb.customs.push((12, ".debug_str".to_string(), vec![0u8]));
+                    mb.customs.push((12, ".debug_line".to_string(), vec![0u8]));
+                }
+                if i < total {
+                    mb.customs.push((12, format!("meta.{}", i), payload(1 + i % 3, i as u8)));
+                }
+            }
+            out.push(Member { family: "customs", coords: format!("{} unknown sections, DWARF sections in front of #{}", total, debug_at), wasm: mb.build() });
+        }
+    }
     // a producers section that already records walrus, with an older version (a module that went
     // through a tool built on an older walrus), next to unknown sections
     for fields in [vec![("processed-by", vec![("walrus", "0.1.0")])], vec![("processed-by", vec![("clang", "15"), ("walrus", "0.19.0"), ("walrus", "0.20.0")])], vec![("language", vec![("Rust", "1"), ("Rust", "2")])]] {
@@ -1310,7 +1327,7 @@ pub fn names_family(tier: Tier) -> Vec<Member> {
             (import "env" "f" (func $imp_f (type $ty))) (import "env" "tbl" (table $imp_t 4 funcref)) (import "env" "mem" (memory $imp_m 1)) (import "env" "g" (global $imp_g i32))
             (table $own_t 2 funcref) (memory $own_m 1) (global $own_g (mut i32) (i32.const 1))
             (elem $seg (table $imp_t) (i32.const 0) func $imp_f $own_f) (data $dat (memory $own_m) (i32.const 0) "x")
-            (func $own_f (export "f") (type $ty) (local $l i32) (global.set $own_g (global.get $imp_g)) (i32.load8_u $imp_m (i32.const 0)) (drop)
+            (func $own_f (export "f") (type $ty) (local $l i32) (local.set $l (local.get 0)) (global.set $own_g (local.get $l)) (global.set $own_g (global.get $imp_g)) (i32.load8_u $imp_m (i32.const 0)) (drop)
               (table.size $own_t) (drop) (call $imp_f (local.get 0))))"#),
         ("several functions carry the same name", r#"(module (func $a (@name "helper") (export "e0") (i32.const 1) (drop))
             (func $big (@name "big") (export "e1") (i32.const 1) (drop) (i32.const 2) (drop) (i32.const 3) (drop) (i32.const 4) (drop))
@@ -2198,6 +2215,10 @@ pub fn minimal_family() -> Vec<Member> {
         ("unused-local-and-two-else-less-ifs", r#"(module (func (export "f") (param i32) (local i64) (i32.const 8392) (drop) (if (local.get 0) (then (drop (i32.const 1)))) (if (local.get 0) (then (drop (i32.const 2)))) (drop (i32.const 3))))"#),
         ("two-unused-local-groups-and-four-else-less-ifs", r#"(module (func (export "f") (param i32) (local i64) (local f32) (i32.const 8393) (drop) (if (local.get 0) (then (drop (i32.const 1)))) (if (local.get 0) (then (drop (i32.const 2)))) (if (local.get 0) (then (nop))) (if (local.get 0) (then (drop (i32.const 4)))) (drop (i32.const 3))))"#),
         ("unused-local-and-one-else-less-if", r#"(module (func (export "f") (param i32) (local i64) (i32.const 8394) (drop) (if (local.get 0) (then (drop (i32.const 1)))) (drop (i32.const 3))))"#),
+        // v128 constants with sign bits at lane boundaries, in bodies and in global initialisers
+        ("v128-constants-with-sign-bits", r#"(module (global $g v128 (v128.const i64x2 -2 7)) (global $h (export "h") v128 (v128.const i32x4 0x00010203 0x04050607 0x08090a0b 0x0c0d0e0f))
+            (func (export "f") (result v128) (i32.const 8400) (drop) (drop (v128.const i64x2 -2 7)) (drop (v128.const f64x2 -1.5 2.25)) (drop (v128.const i16x8 0 0 0 -4 1 2 3 4))
+              (drop (v128.const i8x16 0 0 0 0 0 0 0 0x80 1 2 3 4 5 6 7 8)) (drop (global.get $g)) (v128.const i32x4 1 2 0x80000000 4)))"#),
         ("imported-table-named", r#"(module (import "env" "tbl" (table $t 4 funcref)) (table $own 2 funcref) (func $f (export "f") (result i32) (i32.const 8358) (drop) (i32.add (table.size $t) (table.size $own))))"#),
         // two functions whose operator counts in the input order them differently from their counts
         // after a round trip (nops and dead code disappear, an else-less if may gain an `else`)
